@@ -211,10 +211,19 @@ Fixpoint or_list (g : list sel) : sel :=
 (* validation.go:571 `is := :is(<prelude>)` *)
 Definition parent_is (g : list sel) : sel := SIs (or_list g).
 
+(* validation.go:600-603 prepends the tokens ":is(parent) " to the member: the
+   parent becomes the leftmost compound of the complex selector *)
+Fixpoint prepend_desc (r s : sel) : sel :=
+  match s with
+  | SDesc a b => SDesc (prepend_desc r a) b
+  | SChild a b => SChild (prepend_desc r a) b
+  | _ => SDesc r s
+  end.
+
 (* validation.go:587-611: every member of the nested selector list either has its
    `&` replaced by :is(parent) or gets ":is(parent) " prepended *)
 Definition resolve (g pre : list sel) : list sel :=
-  map (fun s => if has_amp s then subst_amp (parent_is g) s else SDesc (parent_is g) s) pre.
+  map (fun s => if has_amp s then subst_amp (parent_is g) s else prepend_desc (parent_is g) s) pre.
 
 (* validation.go:553-565: `&` in a top-level rule is :root *)
 Definition resolve_top (g : list sel) : list sel := map (subst_amp SRoot) g.
